@@ -279,7 +279,7 @@ static LCase gen_lcase(Choice& ch)
         LInput in; int nt = int(rng.below(9));
         for (int j = 0; j < nt; ++j)
         {
-            if (rng.chance(1, 10)) in.text += char("?@$~\x01\x80\xff"[rng.below(7)]);
+            if (rng.chance(1, 10)) in.text += std::string(1, "?@$~\x01\x80\xff\0\0"[rng.below(9)]);      // bytes outside every term, NUL included
             else in.text += sample(dfas[rng.below(uint32_t(dfas.size()))]);
             if (rng.chance(1, 2)) in.text += wss[rng.below(10)];
         }
@@ -473,7 +473,7 @@ template<LProp PROP>
 struct LP
 {
     using Case = LCase;
-    static const char* id() { return PROP == LC04 ? "C04" : PROP == LC10 ? "C10l" : "C12l"; }
+    static const char* id() { return PROP == LC04 ? (eng::args().prop == "C09l" ? "C09l" : "C04") : PROP == LC10 ? "C10l" : "C12l"; }
     static Case gen(Choice& ch) { return gen_lcase(ch); }
     static vj::Value to_json(const Case& c) { return lcase_json(c); }
     static Case from_json(const vj::Value& v) { return lcase_from(v); }
@@ -487,7 +487,7 @@ int main(int argc, char** argv)
     int rc = 2;
     eng::on_big_stack([&]
     {
-        if (a.prop == "C04") rc = eng::run_property<LP<LC04>>(a);
+        if (a.prop == "C04" || a.prop == "C09l") rc = eng::run_property<LP<LC04>>(a);     // C09l: the same oracle serves C09's 'Unexpected character' clause for real lexers
         else if (a.prop == "C10l") rc = eng::run_property<LP<LC10>>(a);
         else if (a.prop == "C12l") rc = eng::run_property<LP<LC12>>(a);
         else { fprintf(stderr, "unknown --prop %s\n", a.prop.c_str()); rc = 2; }
